@@ -333,7 +333,7 @@ fn run_encode(front: &str, stack: &str, inp: &Input, sched: Sched) -> Outcome {
 /// > 65535 in the big variants) hits a failing write call, the error is returned — and the caller then finalizes
 /// (mode "finalize") or simply drops the writer (mode "drop") on a device that works again ("once") or stays broken
 /// ("perm").  Neither may panic.  Returns (class of the write, class of finalize / "dropped", panic message if any).
-fn run_encode_salvage(front: &str, frames: usize, ch: u8, nth_write: usize, perm: bool, then_drop: bool) -> (String, String, Option<String>) {
+fn run_encode_salvage(front: &str, frames: usize, ch: u8, nth_write: usize, perm: bool, then_drop: bool, more: bool) -> (String, String, Option<String>) {
     let sched = sched_for('w', if perm { "perm" } else { "once" }, nth_write, 1);
     let dev = Dev::new(vec![], 0, sched);
     let pcm: Vec<i32> = (0..frames * ch as usize).map(|i| ((i * 37) % 2001) as i32 - 1000).collect();
@@ -343,6 +343,7 @@ fn run_encode_salvage(front: &str, frames: usize, ch: u8, nth_write: usize, perm
             "sample" => {
                 let Ok(mut e) = FlacSampleWriter::new(dev.clone(), Options::default(), 44100, 16, ch, None) else { return ("new-failed".into(), "-".into()) };
                 let w = cls(e.write(&pcm));
+                if more { let _ = e.write(&pcm[..(100 * ch as usize).min(pcm.len())]); }
                 if then_drop { drop(e); (w, "dropped".into()) } else { (w, cls(e.finalize())) }
             }
             "byte" => {
@@ -350,12 +351,14 @@ fn run_encode_salvage(front: &str, frames: usize, ch: u8, nth_write: usize, perm
                 let mut raw = vec![];
                 for s in &pcm { raw.extend_from_slice(&s.to_le_bytes()[..2]); }
                 let w = cls(e.write_all(&raw).map_err(Error::Io));
+                if more { let _ = e.write_all(&raw[..(200 * ch as usize).min(raw.len())]); }
                 if then_drop { drop(e); (w, "dropped".into()) } else { (w, cls(e.finalize())) }
             }
             _ => {
                 let Ok(mut e) = FlacChannelWriter::new(dev.clone(), Options::default(), 44100, 16, ch, None) else { return ("new-failed".into(), "-".into()) };
                 let chans: Vec<Vec<i32>> = (0..ch as usize).map(|c| (0..frames).map(|i| pcm[i * ch as usize + c]).collect()).collect();
                 let w = cls(e.write(&chans));
+                if more { let few: Vec<Vec<i32>> = chans.iter().map(|c| c[..100.min(c.len())].to_vec()).collect(); let _ = e.write(&few); }
                 if then_drop { drop(e); (w, "dropped".into()) } else { (w, cls(e.finalize())) }
             }
         }
@@ -656,12 +659,12 @@ fn main() {
                     let probe = { let d = Dev::new(vec![], 0, Sched::default()); let _ = FlacSampleWriter::new(d.clone(), Options::default(), 44100, 16, ch, None).map(|w| std::mem::forget(w)); d.counts()[0] };
                     for k in [probe, probe + 1, probe + 2, probe + 5, probe + 9] {
                         for perm in [false, true] {
-                            for then_drop in [false, true] {
-                                let (w, f, p) = run_encode_salvage(front, frames, ch, k, perm, then_drop);
+                            for (then_drop, more) in [(false, false), (true, false), (false, true)] {
+                                let (w, f, p) = run_encode_salvage(front, frames, ch, k, perm, then_drop, more);
                                 salvage_runs += 1;
                                 ctx.runs += 1;
                                 let scn = format!("salvage:{}:ch{}:frames{}", front, ch, frames);
-                                let st = format!("write call {} fails {} then {}", k, if perm { "and all later ones" } else { "once" }, if then_drop { "drop" } else { "finalize()" });
+                                let st = format!("write call {} fails {} then {}{}", k, if perm { "and all later ones" } else { "once" }, if more { "another small write and " } else { "" }, if then_drop { "drop" } else { "finalize()" });
                                 if let Some(p) = p {
                                     viol(&mut ctx, &format!("panic:after-failed-write:{}", front),
                                          &format!("{}: after `write` of {} PCM frames ({} channel(s)) met a failing write call, {} panicked: {}", front, frames, ch, if then_drop { "dropping the writer" } else { "finalize()" }, p),
